@@ -117,8 +117,12 @@ def gen_case(rng):
             prog.append(("BCopy", r, d))
             dst = ("bp", d, lambda: bp_mut(rng, d, names, funcs, sizes, SR))
         elif derive == "bp+":
-            r2, ops2, n2, f2, s2 = mk_bp(rng, regs, SR, N)
-            prog += ops2
+            if rng.random() < 0.3:
+                r2, n2, f2, s2 = regs.B(), [], [], []        # a + BluePrint(): nothing to append
+                prog.append(("BNew", r2))
+            else:
+                r2, ops2, n2, f2, s2 = mk_bp(rng, regs, SR, N)
+                prog += ops2
             d = regs.B()
             prog.append(("BAdd", r, r2, d))
             from .common import uniquify, basename
@@ -256,3 +260,20 @@ def nontrivial_key(case, impl):
     if len({m[0] for m in case["muts"]}) < 2:
         return None
     return (case["kind"], tuple((m[0], m[1]) for m in case["muts"]))
+
+
+def extra_checks(ctx):
+    """Alias-graph correspondence: every row of alias/table.json against the real objects (id() graph, contents)."""
+    import subprocess
+    import sys
+    import os
+    from harness import alias
+    root = os.path.dirname(os.path.dirname(os.path.dirname(os.path.abspath(__file__))))
+    if subprocess.run([sys.executable, os.path.join(root, "alias", "gen_coq.py"), "--check"]).returncode != 0:
+        ctx["report"]("coq/Model/AliasTable.v is not what alias/gen_coq.py generates from alias/table.json", {}, False)
+    rounds = 2 if ctx["tier"] == "quick" else 25
+    n, fails, sample = alias.check_tables(ctx["seed"] + 7, rounds)
+    for f in fails[:3]:
+        ctx["report"]("effect table row violated by the implementation: " + f, {"alias_failure": f, "all": fails}, True)
+    return {"evaluations": n, "distinct_nontrivial": len(alias.TABLE["mutators"]) + len(alias.TABLE["readonly"]) + len(alias.TABLE["derive"]),
+            "samples": [{"alias_row": sample}], "alias_rows_checked": n}
